@@ -78,6 +78,12 @@ func (m *mon) causes(v reflect.Value, name string) []cause {
 	if m.prevOK && !equalNorm(m.prevV, m.prevD) {
 		cs = append(cs, cause{"unmarshal:earlier-result-changed", "a value returned by an earlier Unmarshal call changed during a later Unmarshal call (shared buffers)", name, map[string]interface{}{}})
 	}
+	if m.prevOK {
+		// ... and now the caller is done with it and reuses its memory: every byte slice of the earlier result is overwritten
+		// in place.  What Unmarshal hands out belongs to the caller; writing into it must not change what later calls decode
+		// (they are judged like every other call).
+		scribbled += scribbleBytes(m.prevD)
+	}
 	m.prevOK = false
 	if !(dpan == "" && derr == nil && equalNorm(v, d)) {
 		found := diagDecode(v, name)
@@ -804,6 +810,8 @@ func main() {
 	r.Floor("field_kinds_generated", r.DistinctN("field_kinds_generated"), 14)
 	r.Count("rejected_call_groups_before_real_calls", int(atomic.LoadInt64(&disturbances)))
 	r.Floor("rejected_call_groups_before_real_calls", int(atomic.LoadInt64(&disturbances)), 1000)
+	r.Count("bytes_of_earlier_results_overwritten_by_the_caller", scribbled)
+	r.Floor("bytes_of_earlier_results_overwritten_by_the_caller", scribbled, 10000)
 	r.Finish()
 }
 
@@ -848,4 +856,40 @@ func sameNamedTypes(m *mon) {
 			round(list{Head: 7, Items: []item{{true, []byte{1, 2, 3}}, {false, []byte{9}}}}, "same-named-types/third-scope")
 		}()
 	}
+}
+
+var scribbled int
+
+// scribbleBytes inverts every byte of every []byte reachable in v (in place) and returns how many bytes it changed.
+func scribbleBytes(v reflect.Value) int {
+	n := 0
+	switch v.Kind() {
+	case reflect.Ptr, reflect.Interface:
+		if !v.IsNil() {
+			n += scribbleBytes(v.Elem())
+		}
+	case reflect.Struct:
+		for i := 0; i < v.NumField(); i++ {
+			n += scribbleBytes(v.Field(i))
+		}
+	case reflect.Slice:
+		if v.Type().Elem().Kind() == reflect.Uint8 {
+			for i := 0; i < v.Len(); i++ {
+				e := v.Index(i)
+				if e.CanSet() {
+					e.SetUint(e.Uint() ^ 0xFF)
+					n++
+				}
+			}
+			return n
+		}
+		for i := 0; i < v.Len(); i++ {
+			n += scribbleBytes(v.Index(i))
+		}
+	case reflect.Array:
+		for i := 0; i < v.Len(); i++ {
+			n += scribbleBytes(v.Index(i))
+		}
+	}
+	return n
 }
